@@ -46,14 +46,27 @@ def typecheck(n):
     def need(cond, msg):
         if not cond:
             raise TypeErrorShape("%s: %s" % (k, msg))
-    if k in ("leaf", "just"):
+    NONE_T = "none"
+    def compat(a, b):
+        return a == b or a == NONE_T or b == NONE_T
+    if k in ("leaf", "just", "just_from"):
         vt = VAL
+    elif k in ("just_error", "just_done"):
+        vt = NONE_T
+    elif k == "just_void_or_done":
+        vt = VOID
+    elif k in ("defer", "let_value_with", "lvwss", "lvwst", "allocate"):
+        need(len(ks) == 1, "arity")
+        vt = ks[0]
+    elif k == "variant":
+        need(len(ks) == 2 and ks[0] == ks[1] and n.arg in (1, 2), "both alternatives must have the same value type")
+        vt = ks[0]
     elif k in ("leafv", "justv", "sched", "stop_if_requested"):
         vt = VOID
     elif k in ("then", "upon_error", "upon_done"):
         need(len(ks) == 1, "arity")
         if k != "then":
-            need(ks[0] == VAL, "function result type must match the predecessor's value type in this harness")
+            need(ks[0] in (VAL, "none"), "function result type must match the predecessor's value type in this harness")
         vt = VAL
     elif k == "thenv":
         vt = VOID
@@ -61,8 +74,8 @@ def typecheck(n):
         need(len(ks) == 2, "arity")
         vt = ks[1]
     elif k in ("let_error", "let_done"):
-        need(len(ks) == 2 and ks[0] == ks[1], "successor must produce the predecessor's value type")
-        vt = ks[0]
+        need(len(ks) == 2 and compat(ks[0], ks[1]), "successor must produce the predecessor's value type")
+        vt = ks[1]
     elif k == "finally":
         need(len(ks) == 2 and ks[1] == VOID, "completion must be void-valued")
         vt = ks[0]
@@ -99,6 +112,9 @@ def typecheck(n):
         vt = ks[0]
     else:
         raise TypeErrorShape("unknown kind " + k)
+    if k in ("when_all", "when_any", "stop_when", "sequence", "retry_when", "repeat_effect_until", "let_value", "into_variant",
+             "done_as_optional", "any", "via", "typed_via", "on", "variant", "defer", "let_value_with", "lvwss", "lvwst", "allocate", "wqv", "walloc", "unstoppable"):
+        need("none" not in ks, "a sender without value types is not usable here")
     n.vt = vt
     return vt
 
@@ -186,6 +202,26 @@ def cpp(n):
         return "unifex::just()"
     if k == "stop_if_requested":
         return "unifex::stop_if_requested()"
+    if k == "just_error":
+        return "unifex::just_error(mkerr(%d))" % i
+    if k == "just_done":
+        return "unifex::just_done()"
+    if k == "just_void_or_done":
+        return "unifex::just_void_or_done(%s)" % ("true" if n.arg == 1 else "false")
+    if k == "just_from":
+        return "unifex::just_from(FnD{&w, %d})" % i
+    if k == "defer":
+        return "unifex::defer([&w]() { w.call(%d, {}); return %s; })" % (i, c[0])
+    if k == "let_value_with":
+        return "unifex::let_value_with([&w]() { return Val(&w, %d); }, [&w](Val&) { w.call(%d, {}); return %s; })" % (i, i, c[0])
+    if k == "variant":
+        return "make_variant(%s, [&w]() { return %s; }, [&w]() { return %s; })" % ("true" if n.arg == 1 else "false", c[0], c[1])
+    if k == "allocate":
+        return "unifex::allocate(%s)" % c[0]
+    if k == "lvwss":
+        return "unifex::let_value_with_stop_source([&w](auto& src) { w.innerStop[%d] = [&src] { src.request_stop(); }; return %s; })" % (i, c[0])
+    if k == "lvwst":
+        return "unifex::let_value_with_stop_token([&w](unifex::inplace_stop_token) { return %s; })" % c[0]
     if k == "then":
         return "unifex::then(%s, Fn{&w, %d})" % (c[0], i)
     if k == "thenv":
@@ -329,6 +365,38 @@ def curated():
     add(("stop_when", ("on", L, A(1)), LV))
     add(("wqv", ("on", L, A(1)), A(5)))
     add(("on", ("wqv", L, A(5)), A(2)))
+    # factories and small adaptors
+    add(("then", "just_error"))
+    add(("upon_error", "just_error"))
+    add(("upon_done", "just_done"))
+    add(("let_error", "just_error", L))
+    add(("let_done", "just_done", L))
+    add(("finally", "just_error", LV))
+    add(("mat", "just_done"))
+    add(("sequence", ("just_void_or_done", A(1)), L))
+    add(("sequence", ("just_void_or_done", A(0)), L))
+    add(("then", "just_from"))
+    add(("when_all", "just_from", L))
+    add(("defer", L))
+    add(("defer", ("when_all", L, L)))
+    add(("let_value_with", L))
+    add(("let_value_with", ("stop_when", L, LV)))
+    add(("variant", L, ("then", L), A(1)))
+    add(("variant", L, ("then", L), A(2)))
+    # stop-source / stop-token injection
+    add(("lvwss", L))
+    add(("lvwss", ("when_all", L, L)))
+    add(("when_all", ("lvwss", L), L))
+    add(("lvwss", ("unstoppable", L)))
+    add(("unstoppable", ("lvwss", L)))
+    add(("lvwst", L))
+    add(("stop_when", ("lvwst", L), LV))
+    # allocator
+    add(("allocate", L))
+    add(("walloc", ("allocate", L), A(3)))
+    add(("walloc", ("when_all", ("allocate", L), L), A(4)))
+    add(("allocate", ("walloc", ("allocate", L), A(3))))
+    add(("any", ("walloc", ("allocate", L), A(3))))
     return T
 
 
@@ -388,10 +456,36 @@ def nocopy_free(rng, depth, vt):
     return L if vt == VAL else LV
 
 
-def catalogue(tier, seed):
-    shapes = curated()
+def with_any_inside(t):
+    """Insert an any_sender_of node around the first child (if the shape has children)."""
+    if isinstance(t, str):
+        return None
+    kids = [i for i, x in enumerate(t[1:], 1) if not isinstance(x, dict)]
+    if not kids:
+        return None
+    i = kids[0]
+    return t[:i] + (("any", t[i]),) + t[i + 1:]
+
+
+def erasure_catalogue(tier):
+    """C18: every base shape together with the same shape wrapped in / containing an any_sender_of node."""
+    base = [t for t in curated() if "any" not in json.dumps(t)]
+    if tier == "quick":
+        base = base[::2]
+    out = []
+    for t in base:
+        out.append(t)
+        out.append(("any", t))
+        w = with_any_inside(t)
+        if w is not None:
+            out.append(w)
+    return out
+
+
+def catalogue(tier, seed, prop=None):
+    shapes = erasure_catalogue(tier) if prop == "C18" else curated()
     rng = random.Random(seed * 1000003 + 17)
-    nrand = 0 if tier == "quick" else 120
+    nrand = 0 if (tier == "quick" or prop == "C18") else 120
     tries = 0
     seen = set(json.dumps(s) for s in shapes)
     while nrand > 0 and tries < 5000:
@@ -410,8 +504,11 @@ def catalogue(tier, seed):
         shapes.append(t)
         nrand -= 1
     out = []
-    for i, t in enumerate(shapes):
-        rec, code, vt, nl = build(i + 1, t)
+    for t in shapes:
+        try:
+            rec, code, vt, nl = build(len(out) + 1, t)
+        except TypeErrorShape:
+            continue          # e.g. an any_sender_of below retry_when (the source must be copyable)
         out.append(dict(spec=rec, cpp=code, vt=vt, leaves=nl, dsl=t))
     return out
 
